@@ -763,6 +763,10 @@ class QGen:
             opts.append((2, "typed-leaf-seq"))
         if self.f.first and not self.safe and fuel > 1 and not self.noflat:
             opts.append((2, "first-of-seqs"))
+        # (an enum of a class some object at hand belongs to: the header that defines it is then part of the package)
+        enums_here = [e_ for e_ in self.s.enums if e_.in_class and any(isinstance(t, TObj) and t.cls == e_.in_class for _, t in scope)]
+        if enums_here:
+            opts.append((2, "enum-const"))
         outer_objs = [(n, t.cls) for n, t in scope if isinstance(t, TObj) and not n.startswith("__")
                       and any(m.kind == "num" and not m.enum and not m.tree_type and not m.member and m.ctype != "bool" for m in self.s.classes[t.cls].methods)]
         def _flat_sources(o_name, o_cls):
@@ -775,6 +779,11 @@ class QGen:
         if self.f.seq2d and self.f.closures and outer_objs and not self.noflat:
             opts.append((7, "shadow-two-out"))
         k = self.weighted(opts)
+        if k == "enum-const":
+            # an enum value itself as a column (an integer leaf)
+            e_ = self.pick(enums_here)
+            self.labels.add("enum-constant-column")
+            return (f"{e_.dotted}.{self.pick(e_.values)}", TNum("int"))
         if k == "shadow-two-out":
             # a 2-D column: inside a loop of its own, a flattening step whose parameter carries the name of an object bound TWO lambdas further out,
             # followed by a step that means that outer object
